@@ -39,12 +39,21 @@ class _Suspend:
         yield
 
 
+class Poisoned(RuntimeError):
+    """Raised by a lazy mapping for one member name: reading that member is an error, for the sync and the async getter alike."""
+
+
+POISON: List[Any] = [None]      # the member name that cannot be read (None: every member can)
+
+
 class AMap(Mapping):  # type: ignore[type-arg]
     def __init__(self, raw: Dict[str, Any]) -> None:
         self.raw = raw
         self._d = {k: wrap(v) for k, v in raw.items()}
 
     def __getitem__(self, k: Any) -> Any:
+        if k == POISON[0] and k in self._d:
+            raise Poisoned(k)
         return self._d[k]
 
     def __iter__(self) -> Any:
@@ -55,6 +64,8 @@ class AMap(Mapping):  # type: ignore[type-arg]
 
     async def __getitem_async__(self, k: Any) -> Any:
         await _Suspend()
+        if k == POISON[0] and k in self._d:
+            raise Poisoned(k)
         return self._d[k]
 
 
@@ -142,7 +153,9 @@ def replay(rec: Dict[str, Any]) -> List[Tuple[str, Dict[str, Any], str]]:
             continue
         for d in range(len(docs)):
             kw = {"filter_context": untag(ctx_t)} if ctx_t else {}
-            for wrapped in (False, True):
+            logical = any(w in text for w in ("&&", "||", " and ", " or "))
+            for wrapped in (False, True) + (("poison:a", "poison:b") if logical else ()):
+                POISON[0] = wrapped.split(":")[1] if isinstance(wrapped, str) else None
                 def mk() -> Any:
                     v = untag(docs[d]["doc"])
                     return wrap(v) if wrapped else v
@@ -166,15 +179,33 @@ def replay(rec: Dict[str, Any]) -> List[Tuple[str, Dict[str, Any], str]]:
                         elif len(a_val) != len(s_ms) or any(not same_obj(x, m.obj) for x, m in zip(a_val, s_ms)):
                             disc = "different-values"
                     if disc:
-                        return [(f"{name}:{disc}|{'wrapped' if wrapped else 'plain'}|{feats}",
+                        POISON[0] = None
+                        return [(f"{name}:{disc}|{wrapped if isinstance(wrapped, str) else 'wrapped' if wrapped else 'plain'}|{feats}",
                                  {"query": text, "doc": show(docs[d]["doc"]), "wrapped_in_async_containers": wrapped, "sync": s_kind,
                                   "sync_parts": [list(m.parts) for m in (s_ms or [])][:20], "async": a_kind,
                                   "async_result": str(a_val)[:300], "tagged": c10.strip(rec)}, disc)]
+                POISON[0] = None
                 # and both agree with the specification (plain documents)
                 if not wrapped and s_kind == "ok":
                     exp = [canon(v) for v in rec["res"][d]] if rec.get("_vals") else [canon(tag(v)) for v in expected_values(rec, d)]
                     if [canon(tag(m.obj)) for m in s_ms] != exp:
                         break  # sync already departs from the specification: C01/C02/C13's business
+        # the document as JSON text, and as the JSON text of a string that itself holds JSON text (a string document)
+        for form in ("json-text", "json-string-of-json-text"):
+            raw = json.dumps(untag(docs[0]["doc"]))
+            tdoc = raw if form == "json-text" else json.dumps(raw)
+            kw = {"filter_context": untag(ctx_t)} if ctx_t else {}
+            s_kind, s_vals = observe(lambda: path.findall(tdoc, **kw))
+            for name, fn in (("findall_async", lambda: drive(path.findall_async(tdoc, **kw))),
+                             ("finditer_async", lambda: [m.obj for m in drive(collect(path.finditer_async(tdoc, **kw)))])):
+                a_kind, a_vals = observe(fn)
+                disc = ""
+                if a_kind.split(":")[0] != s_kind.split(":")[0]:
+                    disc = f"sync-{s_kind.split(':')[0]}-async-{a_kind.split(':')[0]}"
+                elif s_kind == "ok" and [canon(tag(v)) for v in a_vals] != [canon(tag(v)) for v in s_vals]:
+                    disc = "different-values"
+                if disc:
+                    return [(f"{name}:{disc}|{form}|{feats}", {"query": text, "doc": tdoc[:300], "sync": s_kind, "async": a_kind, "tagged": c10.strip(rec)}, disc)]
     return []
 
 
